@@ -24,7 +24,7 @@ COMPONENTS = dict(real=["hio.core.memo.memoing.Memoer (rend, pick, verify, fuse,
 ASSUMPTIONS = ["no loss in this check: every gram is delivered at least once (loss is C21/C22 territory)"]
 PROBES = ["layout_switched_after_construction", "signed_memo", "binary_headers", "zeroth_gram_delivered_last", "duplicate_after_completion", "interleaved_senders", "min_gram_size", "multibyte_split"]
 BOUNDS = dict(quick=dict(senders=3, memos=6, chars=400), thorough=dict(senders=3, memos=9, chars=400))
-TIERS = dict(quick=dict(cases=6000, wall=45.0), thorough=dict(cases=600000, wall=420.0))
+TIERS = dict(quick=dict(cases=15000, wall=60.0), thorough=dict(cases=600000, wall=420.0))
 SIM_TIME_UNIT = "deliveries"
 
 ALPHABETS = ["abcdefghij", "héllo wörld ", "中文字符测试", "😀🎉x", "0123456789 the quick brown fox ", "\n\t {}[]\"'"]
